@@ -19,7 +19,8 @@
            PXfer i            stage i hands the message it offers to stage i+1 / the consumer
            PExit i            stage i returns: its input is closed while it receives, or (stages
                               with a ctx case in their select) the context is done while it sends;
-                              PullID also returns by itself on a REMOVE of its id (inside PXfer).
+                              PullID also returns by itself on a REMOVE of its id (inside PXfer)
+                              and its deferred cancel() then ends the context of the chain.
    Filters (equivalence, include) only skip a send and are not modelled.  A message is
    (id, kind, value) with kind 1 ADD, 2 UPDATE, 3 REMOVE, 4 REPLACE as in types.ChangeType. *)
 From SC Require Import Base.Prelude Bus.Bus.
@@ -120,7 +121,16 @@ Definition input_closed (p : pipe) (i : nat) : bool :=
 Definition set_stage (p : pipe) (i : nat) (st : stage) : pipe :=
   mkP (p_cancel p) (p_src_closed p) (upd (p_stages p) i st) (p_out p).
 
-Definition pstep (p : pipe) (a : plabel) : option pipe :=
+(* PullID ends on the REMOVE of its id.  Since the fix 728882a its deferred cancel() then ends
+   the context of the inner Pull (the whole chain upstream of it); before the fix ([fixed] =
+   false, kept as pstep_v0) it just returned and left the inner Pull running. *)
+Definition ends_chain (nx : stage) (m : msg) : bool :=
+  match nx with
+  | StPullID id None => (m_id m =? id) && (m_kind m =? 3)
+  | _ => false
+  end.
+
+Definition pstep_gen (fixed : bool) (p : pipe) (a : plabel) : option pipe :=
   match a with
   | PCancel => if p_cancel p then None else Some (mkP true (p_src_closed p) (p_stages p) (p_out p))
   | PSrcClose =>
@@ -140,7 +150,7 @@ Definition pstep (p : pipe) (a : plabel) : option pipe :=
               then Some (mkP (p_cancel p) (p_src_closed p) (upd (p_stages p) i (sent st)) (m :: p_out p))
               else match stage_at p (S i) with
                    | Some nx => if accepting nx
-                                then Some (mkP (p_cancel p) (p_src_closed p)
+                                then Some (mkP (p_cancel p || (fixed && ends_chain nx m)) (p_src_closed p)
                                                (upd (upd (p_stages p) i (sent st)) (S i) (recv nx m)) (p_out p))
                                 else None
                    | None => None
@@ -160,11 +170,16 @@ Definition pstep (p : pipe) (a : plabel) : option pipe :=
       end
   end.
 
-Fixpoint prun (p : pipe) (tr : list plabel) : option pipe :=
+Definition pstep := pstep_gen true.
+Definition pstep_v0 := pstep_gen false.
+
+Fixpoint prun_gen (fixed : bool) (p : pipe) (tr : list plabel) : option pipe :=
   match tr with
   | [] => Some p
-  | a :: r => match pstep p a with Some p' => prun p' r | None => None end
+  | a :: r => match pstep_gen fixed p a with Some p' => prun_gen fixed p' r | None => None end
   end.
+Definition prun := prun_gen true.
+Definition prun_v0 := prun_gen false.
 
 Definition pend (st : stage) : nat :=
   match st with
